@@ -212,6 +212,7 @@ func zzC17Value() map[string]any {
 		"pa":   &[2]int{7, 8},
 		"ps":   &[]string{"x", "y"},
 		"tm":   map[string]int{"7": 70, "k": 1},
+		"sm":   map[string]string{"k": "sv", "0": ""},
 		"nm":   zzC17Named{"0": "named-zero", "k": "nk"},
 		"sos":  []zzC17T{{X: 1, T: "one"}, {X: 2, T: "two"}},
 		"pm":   &map[string]any{"k": "pk"},
@@ -312,7 +313,7 @@ func zzC17Index(cur any, seg string) (any, bool) {
 
 var zzNilPtr = (*int)(nil)
 
-var zzC17Segs = []string{"a", "b", "m", "k", "c", "arr", "p", "s", "nilp", "sl", "X", "Y", "T", "t", "u", "0", "1", "2", "9", "-1", "zz", "pa", "ps", "tm", "nm", "7", "sos", "pm", "emb", "pemb", "N", "n", "C", "am"}
+var zzC17Segs = []string{"a", "b", "m", "k", "c", "arr", "p", "s", "nilp", "sl", "X", "Y", "T", "t", "u", "0", "1", "2", "9", "-1", "zz", "pa", "ps", "tm", "nm", "7", "sos", "pm", "emb", "pemb", "N", "n", "C", "am", "sm"}
 
 // VerifC17_Paths: every well-formed dotted / bracketed path of up to three
 // segments resolves to what Go indexing reaches, or is reported absent.
